@@ -58,7 +58,7 @@ def run_map_case(prog, storage="dict", run_folder=None, **kw):
     log: list = []
     progs.set_log(log)
     try:
-        res = p.map(progs.real_inputs(prog), run_folder=run_folder, parallel=False, storage=storage, **kw)
+        res = p.map(progs.real_inputs(prog), run_folder=run_folder, parallel=False, storage=storage, **progs.map_kwargs(prog), **kw)
     finally:
         progs.set_log(None)
     return p, res, log
